@@ -6,6 +6,7 @@
    the Lie-Trotter convergence itself. *)
 From Coq Require Import List Arith QArith Permutation.
 Import ListNotations.
+From Yaqs Require Import Model.ChainFSM Proofs.ChainFSMP.
 From Yaqs Require Import Model.PauliFSM Proofs.PauliFSMP Model.CircuitLib Proofs.CircuitLibP Model.HamTerms Proofs.HamTermsP.
 
 Theorem C07_fsm_denotes_terms : forall L ts, (1 <= L)%nat -> (forall t, In t ts -> length (snd t) = L) -> denote (build L ts) = ts.
@@ -44,6 +45,14 @@ Theorem C07_hamiltonian_fsm_denotes : forall L two one per, (1 <= L)%nat ->
   denote (build L (map (expand L) (ham_terms L two one per))) = map (expand L) (ham_terms L two one per).
 Proof. exact ham_fsm_denotes. Qed.
 Print Assumptions C07_hamiltonian_fsm_denotes.
+
+(* hand-written nearest-neighbour automata (MPO.bose_hubbard; its tensors are decoded into this transition table by the correspondence
+   check): for every chain length and any list of coupling channels the accepted paths spell exactly the documented terms — the on-site
+   term on every site and x_k y_k on every bond, identities elsewhere *)
+Theorem C07_chain_automaton_denotes_terms : forall (sym : Type) (I h : sym) (chans : list (sym * sym)) L,
+  Permutation (ChainFSM.expand sym I h chans L) (ChainFSM.terms sym I h chans L).
+Proof. exact expand_is_terms. Qed.
+Print Assumptions C07_chain_automaton_denotes_terms.
 
 Example C07_example :
   let ts := [(1#2, [PZ;PZ;PI;PI]); (1#2, [PI;PZ;PZ;PI]); (1#2, [PI;PI;PZ;PZ]); (3#1, [PX;PI;PI;PI]); (3#1, [PI;PX;PI;PI]);
